@@ -9,7 +9,7 @@ HDR = ("From Coq Require Import List ZArith Bool.\n"
        "From WH Require Import lib.Wire gen.Extracted model.AlphWatcher.\n"
        "Import ListNotations.\nOpen Scope Z_scope.\n"
        "Definition E (u b i : Z) (c : option wmsg) : cevent := {| e_uid := u; e_block := b; e_index := i; e_conv := c |}.\n"
-       "Definition M (s cl : Z) (k : pkind) (t : option tokinfo) : option wmsg := Some {| m_sender := s; m_cl := cl; m_kind := k; m_tok := t |}.\n"
+       "Definition WM (s cl : Z) (k : pkind) (t : option tokinfo) : option wmsg := Some {| m_sender := s; m_cl := cl; m_kind := k; m_tok := t |}.\n"
        "Definition TI (a b c d : Z) : option tokinfo := Some {| ti_id := a; ti_dec := b; ti_sym := c; ti_name := d |}.\n"
        "Definition H (t h : Z) : option header := Some {| h_ts := t; h_height := h |}.\n"
        "Definition look {A} (d : A) (l : list A) (i : Z) : A := if i <? 0 then d else nth (Z.to_nat i) l d.\n"
@@ -111,11 +111,9 @@ class Tr:
         if c is None:
             return "None"
         kind = {"t": "PTransfer", "a": "PAttest", "o": "POther"}[c["k"]]
-        if c["cl"] == 255:
-            self.skip = "level 255 (C11)"
         t = c.get("tok")
         tok = "None" if t is None else "(TI %d %d %d %d)" % (t["id"], t["dec"], self.strid(t["sym"]), self.strid(t["name"]))
-        return "(M %d %d %s %s)" % (c["s"], c["cl"], kind, tok)
+        return "(WM %d %d %s %s)" % (c["s"], c["cl"], kind, tok)
 
     def mcans(self, a):
         if a == "err":
@@ -132,9 +130,7 @@ class Tr:
                     vs.append("VBytes None" if i is None else "VBytes (Some %d)" % i)
                 elif v[0] == "n":
                     n = int(v[1])
-                    if n == 255 or n < 0:
-                        self.skip = "decimals 255 / negative (C11)"
-                    vs.append("VNum (Some %d)" % n if 0 <= n < 255 else "VNum None")
+                    vs.append("VNum (Some %d)" % n if 0 <= n <= 255 else "VNum None")   # toUint8 (C11, repaired): exactly 0..255
                 else:
                     vs.append("VOther")
             rs.append("COk %s" % core.glist(vs))
@@ -180,7 +176,7 @@ class Tr:
                 if s["err"] == "mainchain":
                     mc = "(fun _ => None)"
                 else:
-                    mc = "(look None %s)" % core.glist(["None"] + [("Some true" if bl[i][1] else "Some false") if i in bl else "None" for i in range(1, bmax + 1)])
+                    mc = "(look (@None bool) %s)" % core.glist(["None"] + [("Some true" if bl[i][1] else "Some false") if i in bl else "None" for i in range(1, bmax + 1)])
                 hd = "(fun _ => None)" if s["err"] == "header" else "hd"
                 ops.append("OTick %d %s %s %s" % (s["height"], z(s["lo"] - self.base), mc, hd))
                 fl = {"ok": 0, "fatal": 1, "panic": 3}.get(s["res"], 9)
@@ -199,7 +195,7 @@ class Tr:
                 ops.append("RO %s %s %s ta %s %s %s" % (st, ev, hd, mc, ht, z(s["lo"] - self.base)))
                 fl = {"ok": 0, "panic": 3}.get(s["res"], 9)
                 xs.append("(%d, %s, [], -1, -1, -1)" % (fl, core.glist(str(u) for u in s["fwd"])))
-        text = ("(let T := %s in let ev := look E0 T in let ta := look McErr %s in let hd := look None %s in\n"
+        text = ("(let T := %s in let ev := look E0 T in let ta := look McErr %s in let hd := look (@None header) %s in\n"
                 "  let L := map ev %s in let tok := fun i => tokof ta (look E0 L i) in\n"
                 "  ({| c_gov := 0; c_bridge := 1; c_mainnet := %s |}, %d, %s, %s))"
                 % (core.glist(T), core.glist(TA), core.glist(HD), core.glist(str(u) for u in row["log"]),
